@@ -40,4 +40,52 @@ def aggMedian : Nat := 1
 def aggMode : Nat := 2
 def aggQuote : Nat := 3
 
+/-- report formats of chainlink-common -/
+def fmtEVMPremiumLegacy : Nat := 1
+def fmtJSON : Nat := 2
+def fmtRetirement : Nat := 3
+def fmtEVMABIEncodeUnpacked : Nat := 4
+
+def stageStaging : String := "staging"
+def stageProduction : String := "production"
+def stageRetired : String := "retired"
+
+/-- `llo.Outcome`.  `LifeCycleStage` is a Go string (any string can come out of a decoder).
+    `StreamAggregates` (`map[StreamID]map[Aggregator]StreamValue`) is flattened to a map keyed by
+    `(streamID, aggregator)`: an empty inner map is unobservable (both codecs and the telemetry
+    skip it). -/
+structure Outcome where
+  stage : String
+  ts    : Nat
+  defs  : GoMap Nat ChanDef
+  va    : GoMap Nat Nat
+  aggs  : GoMap (Nat × Nat) SV
+  deriving Repr, Inhabited, DecidableEq
+
+/-- `llo.RetirementReport` -/
+structure RetirementReport where
+  version : Nat
+  va : GoMap Nat Nat
+  deriving Repr, Inhabited, DecidableEq
+
+/-- a decoded `llo.Observation` (`StreamValues` never holds nil after `Decode`) -/
+structure Obs where
+  attested     : List UInt8
+  shouldRetire : Bool
+  ts           : Nat
+  removes      : List Nat
+  updates      : GoMap Nat ChanDef
+  values       : GoMap Nat SV
+  deriving Repr, Inhabited, DecidableEq
+
+/-- `llo.Report` as handed to a `ReportCodec` -/
+structure Report where
+  seqNr     : Nat
+  channelID : Nat
+  validAfter : Nat
+  obsTs     : Nat
+  values    : List (Option SV)
+  specimen  : Bool
+  deriving Repr, Inhabited, DecidableEq
+
 end DSV.LLO
